@@ -80,7 +80,11 @@ fn gen_case(seed: u64, i: u64, corpus: &[String], regr: &[String]) -> (String, S
         return ("deep-parens".into(), inputs::deep_parens(&mut r));
     }
     let base = &corpus[r.usize(corpus.len())];
-    match r.below(20) {
+    match r.below(21) {
+        20 => {
+            let (s, how) = inputs::numeric(&mut r, base);
+            (format!("number-{how}"), s)
+        }
         0..=2 => ("arbitrary".into(), inputs::arbitrary(&mut r)),
         3..=6 => ("prefix".into(), inputs::prefix(&mut r, base)),
         7..=12 => {
@@ -91,9 +95,16 @@ fn gen_case(seed: u64, i: u64, corpus: &[String], regr: &[String]) -> (String, S
             let (s, how) = inputs::near_valid(&mut r);
             (format!("grammar-{how}"), s)
         }
-        17 => ("corpus-crlf".into(), srcgen::to_crlf(base)),
+        17 => {
+            if r.chance(1, 2) {
+                ("corpus-crlf".into(), srcgen::to_crlf(base))
+            } else {
+                let (s, how) = inputs::numeric(&mut r, base);
+                (format!("number-{how}"), s)
+            }
+        }
         _ => {
-            let (s, d) = inputs::nesting(&mut r, 10);
+            let (s, d) = inputs::nesting(&mut r, 5);
             (format!("nesting-{}", if d >= 90 { "90-100" } else if d >= 50 { "50-89" } else { "1-49" }), s)
         }
     }
@@ -299,7 +310,7 @@ fn main() {
     ev.set_extra("corpus_sources", json!(corpus.len()));
     ev.set_extra("regression_sources", json!(regr.len()));
     let cases_override: Option<u64> = opts.extra.iter().position(|x| x == "--cases").and_then(|i| opts.extra.get(i + 1)).and_then(|x| x.parse().ok());
-    let total: u64 = regr.len() as u64 + DEEP_PAREN_CASES as u64 + cases_override.unwrap_or(opts.tier.pick(12_000u64, 400_000u64));
+    let total: u64 = regr.len() as u64 + DEEP_PAREN_CASES as u64 + cases_override.unwrap_or(opts.tier.pick(10_000u64, 400_000u64));
     let verbose = opts.has_flag("--verbose");
     let t_start = std::time::Instant::now();
     let exe = std::env::current_exe().unwrap();
@@ -421,10 +432,15 @@ fn main() {
                     ev.case(&src, true);
                     ev.hit(&format!("robust:stream:{stream}"));
                     ev.hit("robust:violation:timeout");
-                    // cause: does the hang go away when every parenthesis becomes a bracket?
+                    // cause: does the hang go away when the suspected construct is replaced by a
+                    // plain bracket of the same depth?
                     let unparen: String = src.chars().map(|c| match c { '(' => '[', ')' => ']', c => c }).collect();
-                    let cause = if unparen != src && !matches!(probe(&unparen, Duration::from_secs(3)), Probe::Timeout) {
+                    let unspawn = src.replace("@{", "{").replace("! [", "[");
+                    let fast = |s: &str| !matches!(probe(s, Duration::from_secs(3)), Probe::Timeout);
+                    let cause = if unparen != src && fast(&unparen) {
                         "nested-parentheses"
+                    } else if unspawn != src && fast(&unspawn) {
+                        "unclosed-spawn-or-select-nest"
                     } else {
                         "unexplained"
                     };
@@ -432,16 +448,13 @@ fn main() {
                     if verbose {
                         eprintln!("[{:.1}s] classified {sig}", t_start.elapsed().as_secs_f64());
                     }
-                    let small = if ev.is_known(&sig) && ev.counters.contains_key(&format!("robust:shrunk:{sig}")) {
+                    // an explained hang on a generated nest needs no shrinking; otherwise a few probes
+                    let small = if cause != "unexplained" {
                         src.clone()
                     } else {
-                        ev.hit(&format!("robust:shrunk:{sig}"));
                         let mut pred = |s: &str| matches!(probe(s, Duration::from_secs(2)), Probe::Timeout);
-                        shrink(&src, &mut pred, 14)
+                        shrink(&src, &mut pred, 10)
                     };
-                    if verbose {
-                        eprintln!("[{:.1}s] shrunk to {} chars", t_start.elapsed().as_secs_f64(), small.len());
-                    }
                     let parens = small.chars().filter(|c| *c == '(').count();
                     ev.violation(
                         &sig,
